@@ -29,7 +29,12 @@ class C13(Prop):
             "rate bounds per failing server, no eviction on a single failure, no healthy server bypassed, bounded "
             "recovery of the original placement, and the set of exceptions that may escape. distinct = abstract "
             "trace of (event kind, target server, outcome class, number of servers contacted); non-trivial = at "
-            "least one server failed while traffic for it was flowing and traffic continued afterwards.")
+            "least one server failed while traffic for it was flowing and traffic continued afterwards. The first work "
+            "units are a bounded-exhaustive enumeration, ordered by depth: every event sequence up to depth 3 (quick) / "
+            "4 (thorough) over the alphabet {op on server 0/1, multi-key op, advance just below / just above "
+            "retry_timeout / above dead_timeout, server 0/1 down, server 0/1 up} x retry_attempts {0,1,2} x ignore_exc "
+            "on/off for 2 servers (6,660 resp. 66,660 histories), each with the healing suffix; the remaining units "
+            "are the seeded random long histories.")
     state_measure = ("distinct abstract failover states reached after an event: per server (up/down, failed contacts "
                      "since last success capped at 4, contacted-within-retry_timeout flag)")
     assumptions = [
@@ -43,7 +48,89 @@ class C13(Prop):
             return {"units": 16000, "budget_s": 100, "block": 50}
         return {"units": 480000, "budget_s": 1700, "block": 100}
 
+    # ---- bounded-exhaustive part: every event sequence up to a depth over a small alphabet
+    ALPHABET = [("op", 0), ("op", 1), ("mset",), ("adv", "below"), ("adv", "above"), ("adv", "dead"),
+                ("down", 0), ("down", 1), ("up", 0), ("up", 1)]
+    CONFIGS = [(ra, ign) for ra in (0, 1, 2) for ign in (False, True)]
+
+    def enum_count(self, depth):
+        return sum(len(self.ALPHABET) ** d for d in range(1, depth + 1)) * len(self.CONFIGS)
+
+    def enum_decode(self, idx):
+        """idx -> (config, sequence), ordered by depth so that a prefix of the enumeration is complete to a depth."""
+        ncfg = len(self.CONFIGS)
+        cfg = self.CONFIGS[idx % ncfg]
+        k = idx // ncfg
+        d = 1
+        n = len(self.ALPHABET)
+        while k >= n ** d:
+            k -= n ** d
+            d += 1
+        seq = []
+        for _ in range(d):
+            seq.append(self.ALPHABET[k % n])
+            k //= n
+        return cfg, seq, d
+
+    def gen_enum(self, rng, idx):
+        (ra, ign), seq, depth = self.enum_decode(idx)
+        nodes, servers = gen.node_specs(2)
+        names = [refhash.node_name(codec.dec(s)) for s in servers]
+        rt, dead = 1, 10
+        ck = {"default_noreply": False, "retry_attempts": ra, "retry_timeout": rt, "dead_timeout": dead,
+              "ignore_exc": ign}
+        w = {"stack": "hash", "servers": servers, "nodes": nodes, "client_kwargs": ck, "knobs": {"recv_size": 4096}}
+        owned = {n: [] for n in names}
+        j = 0
+        while any(len(v) < 1 for v in owned.values()):
+            k = b"k%d" % j
+            o = refhash.owner(names, k)
+            if not owned[o]:
+                owned[o].append(k)
+            j += 1
+        allkeys = [owned[n][0] for n in names]
+        kind = rng.choice(DOWN_KINDS)
+        steps = []
+        for ev in seq:
+            if ev[0] == "op":
+                m = rng.choice(("get", "set", "delete", "incr"))
+                a = [E(allkeys[ev[1]])]
+                if m == "set":
+                    a.append(E(b"5"))
+                elif m == "incr":
+                    a.append(1)
+                steps.append({"t": "call", "m": m, "a": a, "k": {}})
+            elif ev[0] == "mset":
+                steps.append({"t": "call", "m": rng.choice(("set_many", "get_many")),
+                              "a": [E({k: b"7" for k in allkeys})], "k": {}})
+                if steps[-1]["m"] == "get_many":
+                    steps[-1]["a"] = [E(list(allkeys))]
+            elif ev[0] == "adv":
+                dt = {"below": q(rt - 8 * TICK), "above": q(rt + 8 * TICK), "dead": q(dead + 0.5)}[ev[1]]
+                steps.append({"t": "advance", "dt": dt})
+            elif ev[0] == "down":
+                steps.append({"t": "node", "id": ev[1], "health": kind})
+            else:
+                steps.append({"t": "node", "id": ev[1], "health": "up"})
+        heal = len(steps)
+        for i in range(2):
+            steps.append({"t": "node", "id": i, "health": "up"})
+        step = q(max(rt * 0.75, dead / 8.0))
+        rounds = int(math.ceil((2 * dead + 4 * step + 1) / step))
+        for _ in range(rounds):
+            for k in allkeys:
+                steps.append({"t": "call", "m": "get", "a": [E(k)], "k": {}, "tag": "heal"})
+            steps.append({"t": "advance", "dt": step})
+        final = len(steps)
+        for k in allkeys:
+            steps.append({"t": "call", "m": "get", "a": [E(k)], "k": {}, "tag": "final"})
+        return [{"property": self.id, "world": w, "steps": steps, "heal": heal, "final": final,
+                 "enum": {"depth": depth, "index": idx}}]
+
     def gen(self, rng, idx, tier):
+        depth = 3 if tier == "quick" else 4
+        if idx < self.enum_count(depth):
+            return self.gen_enum(rng, idx)
         nn = rng.choice([2, 2, 3])
         nodes, servers = gen.node_specs(nn, unix=rng.random() < 0.15)
         names = [refhash.node_name(codec.dec(s)) for s in servers]
@@ -346,7 +433,8 @@ class C13(Prop):
     def probe_names(self):
         return ("server-evicted-and-traffic-rerouted", "server-revived-after-dead_timeout", "all-servers-failing",
                 "retry-window-skipped-a-contact", "failure-kind-eof", "failure-kind-blackhole",
-                "multi-key-call-hit-failing-server", "recovered-before-eviction", "ignore_exc-run")
+                "multi-key-call-hit-failing-server", "recovered-before-eviction", "ignore_exc-run",
+                "bounded-exhaustive-sequence")
 
     def probes(self, scn, res):
         p = {}
@@ -354,6 +442,8 @@ class C13(Prop):
         ck = scn["world"]["client_kwargs"]
         if ck.get("ignore_exc"):
             p["ignore_exc-run"] = 1
+        if "enum" in scn:
+            p["bounded-exhaustive-sequence"] = 1
         names = [refhash.node_name(codec.dec(s)) for s in scn["world"]["servers"]]
         nid_name = {n["id"]: names[i] for i, n in enumerate(scn["world"]["nodes"])}
         prefix = codec.dec(ck.get("key_prefix", E(b"")))
